@@ -21,9 +21,19 @@ func Read(in io.Reader) (*Binary, error) {
 		return nil, fmt.Errorf("unable to read tri count: %w", err)
 	}
 
-	tris := make([]Triangle, triCount)
-	if err := binary.Read(in, binary.LittleEndian, &tris); err != nil {
-		return nil, fmt.Errorf("unable to read tris: %w", err)
+	// The header can announce up to 2^32-1 triangles. Only trust it as far as
+	// the input actually delivers: read in bounded chunks, so that a truncated
+	// file costs time and memory proportional to the bytes present instead of
+	// allocating triCount records (>100 GB) up front.
+	const chunk = 1 << 12
+	tris := make([]Triangle, 0, min(int(triCount), chunk))
+	for remaining := int(triCount); remaining > 0; {
+		buf := make([]Triangle, min(remaining, chunk))
+		if err := binary.Read(in, binary.LittleEndian, &buf); err != nil {
+			return nil, fmt.Errorf("unable to read tris: %w", err)
+		}
+		tris = append(tris, buf...)
+		remaining -= len(buf)
 	}
 
 	return &Binary{
